@@ -33,7 +33,8 @@ EXTRA = {
     "C19": dict(props=["Gama/Props/C19Codec.lean"], targets=["Gama.Props.C19Codec"], drivers=["drv_codec"], streams=[_codec],
                 level_note="The adjustment-data dump round trip is instantiated for the real precision(16) %g printer over Q "
                            "(Props/C19Codec.lean)."),
-    "C05": dict(props=[], targets=[], drivers=["drv_pe"], streams=[_pe], replays=[_pe_replay],
+    "C05": dict(props=["Gama/Props/C05ProjectEquations.lean"], targets=["Gama.Props.C05ProjectEquations"],
+                drivers=["drv_pe"], streams=[_pe], replays=[_pe_replay],
                 level_note="The whole LocalNetwork::project_equations() is executed as ONE model (Model/ProjectEquations.lean, "
                            "stream pe) composed of the linearisation pass, the numbering, min_x_ and the cluster walk."),
     "C01": dict(props=[], targets=[], drivers=[], streams=[]),
